@@ -817,6 +817,27 @@ def atomic_store_to(fn, fld, min_order=0):
 
 
 def store_field_const(fn, fld, value):
+    """CFG-element predicate: `x->fld = value`, the value being the literal or a plain local that holds it on this path
+    (`x->fld = ok;` after `ok = false;`, or the false result of an inlined helper) — reach() passes the per-path constants"""
+    def f(e, consts=None):
+        n = fn.nodes[e]
+        if n["k"] == "BinaryOperator" and n["op"] == "=" and field_is(fn, n["c"][0], fld):
+            if fn.cv(n["c"][1]) == value:
+                return True
+            j = fn.strip(n["c"][1])
+            m = fn.nodes[j]
+            return bool(consts) and m["k"] == "DeclRefExpr" and consts.get(m.get("d")) == value
+        return False
+    f.wants_state = True
+    return f
+
+
+def mentions_field_x(fn, i, fld):
+    """expression i reads field fld, directly or through a local that merely names such a read (also an inliner temporary)"""
+    return fn.mentions_field(i, fld) or (("->" + fld) in canon(fn, i) or ("." + fld) in canon(fn, i))
+
+
+def _store_field_const_old(fn, fld, value):
     def f(e):
         n = fn.nodes[e]
         return n["k"] == "BinaryOperator" and n["op"] == "=" and field_is(fn, n["c"][0], fld) and fn.cv(n["c"][1]) == value
